@@ -10,6 +10,10 @@ CLAIMED = {
    note='Trusted: Coq kernel + vm_compute; the hand-written model bodies (tied only by the correspondence runs); the ast translator for call bindings; NumPy/SciPy semantics of sparse products and argsort. Sources restricted to non-negative indices; no explicit zeros.',
    technique='Coq proof (invariant of the BFS loop, filter characterisation) + generated-term obligation + vm_compute correspondence', ref='7/C10'),
 }
+CLAIMED['C14'] = dict(
+   text='Axiom-free Coq theorems over exact rationals about a model of Diffusion/Dirichlet (normalisation, identity on null rows, damping, clamping, bipartite wrapper, seeds as array/list/dict): every returned value lies in the seed range for every n_iter, damping in [0,1] and init in range (unconditionally for Diffusion; for Dirichlet when every free node has an outgoing edge, with a witness that the hypothesis is needed); Dirichlet returns seeds unchanged; the three seed forms coincide (temperature 0 honoured); uniqueness of the harmonic extension on connected graphs; one Dirichlet step is non-expansive and the iteration converges to the harmonic function. The model is evaluated by vm_compute and diffed against the float64 implementation on thousands of cases; bounds, clamping, seed-form and harmonic-limit oracles run on the implementation outputs.',
+   note='Trusted: Coq kernel + vm_compute; model bodies tied by correspondence only; existence of the harmonic function is a hypothesis of the limit theorem (established per tested case by exact elimination, validated in Coq); damping factors taken as decimal rationals; no explicitly stored zeros.',
+   technique='Coq proof (convexity / maximum principle, contraction to the harmonic solution) + vm_compute correspondence', ref='7/C14')
 NOT_YET = 'check not built yet in this session (work in progress, see DESIGN.md section 10)'
 
 checks = []
